@@ -7,8 +7,11 @@ import (
 	"fmt"
 	"os"
 
+	_ "slimverif/harness/fam/arr"
+	_ "slimverif/harness/fam/enc"
 	_ "slimverif/harness/fam/idx"
 	_ "slimverif/harness/fam/trie"
+	_ "slimverif/harness/fam/wire"
 	"slimverif/harness/lp"
 )
 
